@@ -797,12 +797,24 @@ var contracts = map[string]contract{
 	"(*math/big.Int).Sign":      {fresh: true, aliasArg: -1, panics: "receiver non-nil"},
 	"(*math/big.Int).FillBytes": {writes: []int{1}, aliasArg: 1, panics: "len(buf) >= byte length of receiver"},
 	// crypto
-	"crypto/ecdsa.Sign":                     {fresh: true, aliasArg: -1},
-	"crypto/ecdsa.Verify":                   {fresh: true, aliasArg: -1},
-	"crypto/rsa.VerifyPSS":                  {fresh: true, aliasArg: -1},
-	"crypto/ed25519.Verify":                 {fresh: true, aliasArg: -1, panics: "len(publicKey) == 32"},
-	"crypto/ed25519.NewKeyFromSeed":         {fresh: true, aliasArg: -1, panics: "len(seed) == 32"},
-	"(*crypto/ecdsa.PublicKey).ECDH":        {fresh: true, aliasArg: -1},
+	"crypto/ecdsa.Sign":              {fresh: true, aliasArg: -1},
+	"crypto/ecdsa.Verify":            {fresh: true, aliasArg: -1},
+	"crypto/rsa.VerifyPSS":           {fresh: true, aliasArg: -1},
+	"crypto/ed25519.Verify":          {fresh: true, aliasArg: -1, panics: "len(publicKey) == 32"},
+	"crypto/ed25519.NewKeyFromSeed":  {fresh: true, aliasArg: -1, panics: "len(seed) == 32"},
+	"(*crypto/ecdsa.PublicKey).ECDH": {fresh: true, aliasArg: -1},
+	// standard-library functions that fault on arguments a decoded key or message
+	// can carry (the panic audit has no recogniser for their preconditions, so a
+	// call in audited code is reported unless the function recovers)
+	"crypto/elliptic.Marshal":               {fresh: true, aliasArg: -1, panics: "(x, y) is a point of the curve"},
+	"crypto/elliptic.MarshalCompressed":     {fresh: true, aliasArg: -1, panics: "(x, y) is a point of the curve"},
+	"(*math/big.Int).Div":                   {writes: []int{0}, aliasArg: 0, panics: "divisor != 0"},
+	"(*math/big.Int).Mod":                   {writes: []int{0}, aliasArg: 0, panics: "divisor != 0"},
+	"(*math/big.Int).Quo":                   {writes: []int{0}, aliasArg: 0, panics: "divisor != 0"},
+	"(*math/big.Int).Rem":                   {writes: []int{0}, aliasArg: 0, panics: "divisor != 0"},
+	"crypto/rand.Int":                       {fresh: true, aliasArg: -1, panics: "max > 0"},
+	"strings.Repeat":                        {fresh: true, aliasArg: -1, panics: "count >= 0"},
+	"bytes.Repeat":                          {fresh: true, aliasArg: -1, panics: "count >= 0"},
 	"crypto/elliptic.P256":                  {fresh: true, aliasArg: -1}, // shared immutable singleton: never written by the package (R18 checks writes separately)
 	"crypto/elliptic.P384":                  {fresh: true, aliasArg: -1},
 	"crypto/elliptic.P521":                  {fresh: true, aliasArg: -1},
